@@ -255,6 +255,11 @@ def run_wallets(ctx, nets):
             'public_master.wif': [w.public_master().wif.encode()],
             'public_master object': blobs_of(w.public_master()),
             'addresslist': blobs_of(w.addresslist()),
+            # the dictionary export of key selections: selecting the private keys is not asking for their private fields
+            'Wallet.keys(as_dict=True)': blobs_of(w.keys(as_dict=True)),
+            'Wallet.keys(is_private=True, as_dict=True)': blobs_of(w.keys(is_private=True, as_dict=True)),
+            'Wallet.keys(is_private=False, as_dict=True)': blobs_of(w.keys(is_private=False, as_dict=True)),
+            'Wallet.keys(depth=0, is_private=True, as_dict=True)': blobs_of(w.keys(depth=0, is_private=True, as_dict=True)),
         }
         try:
             views['WalletKey.public()'] = blobs_of(copy.copy(keys[2]).public())
@@ -336,6 +341,13 @@ def run_multisig_wallets(ctx, nets):
                      'Wallet.as_json': [wv.as_json().encode()], 'Wallet.keys() repr': [repr(wv.keys()).encode()],
                      'Wallet.wif(is_private=False)': blobs_of(wv.wif(is_private=False)), 'public_master': blobs_of(wv.public_master()),
                      'addresslist': blobs_of(wv.addresslist())}
+            # after key() has been called on the wallet's multisig keys (it loads the cosigner rows): the dictionaries again
+            try:
+                [wv.key(k_.id).key() for k_ in wv.keys()]
+                views['Wallet.as_dict after key() calls'] = blobs_of(wv.as_dict())
+                views['Wallet.keys(as_dict=True) after key() calls'] = blobs_of(wv.keys(as_dict=True))
+            except Exception:
+                ctx.count('multisig-key()-history-not-available')
             for vname, blobs in views.items():
                 ctx.evals += 1
                 ctx.count('multisig-wallet-view:' + vname)
